@@ -21,6 +21,7 @@ EXPLANATION = (
     "table. Decides the shape of the deletion loop and its ordering, NOT completeness of the deletion fixed point "
     "for arbitrary detached subgraphs (creator/dependency cycles are documented survivors). "
     'Also: the directory pruning worklist examines every popped entry (no skip), and File.initialize_row keeps a former output known as an output until cleanup has decided about it.'
+    ' R-C07-7 every optional_step row is reset like a rerun, after the output reset and before the scratch table is dropped; R-C07-8 queued paths are really removed; R-C07-9 outputs of every completed run are recorded.'
 )
 ASSUMPTIONS = ["completeness for every detached subgraph shape is a run-time property and is not claimed"]
 
